@@ -11,7 +11,7 @@ stays pending for ever with nothing that excuses it.  The only reachable panic i
 (In the model a panicked task is *frozen*; the real runtime drops it, which closes the channel and wakes the callers:
 the witness is an artefact of the model, not a lost wakeup of tarpc.)  The statement needs the hypothesis under which
 the C16 theorems show the dispatch never panics: `advSum ops < 2^35 ms` (`C16_client_never_poisoned`).
-`C02NoStuckStatement'` is the statement with that hypothesis; it is still unproved.
+`C02NoStuckStatement'` is the statement with that hypothesis; it is proved as `C02_no_stuck` in `Props/C02NoStuck.lean`.
 
 What is proved here towards it is the invariant the previous partial results were missing —
 `C02_call_accounted`: in every reachable state every call future that waits has something that can wake it on record:
@@ -51,7 +51,7 @@ theorem C02NoStuckStatement_false : ¬ C02NoStuckStatement := by
   cases this
 
 /-- The global statement with the hypothesis that keeps the dispatch from panicking (the clock stays below
-2^35 ms, as in `C16_client_never_poisoned`).  Not proved. -/
+2^35 ms, as in `C16_client_never_poisoned`).  Proved: `C02_no_stuck` (`Props/C02NoStuck.lean`). -/
 def C02NoStuckStatement' : Prop :=
   ∀ (m b c : Nat) (coupled : Bool) (ops : List COp), 1 ≤ m → 1 ≤ b → 1 ≤ c → advSum ops < 2 ^ 35 * nsPerMs →
     (settle (ops.foldl applyOp (initSys m b c coupled))).2 = []
@@ -120,7 +120,7 @@ example :
 
 /-! ### from the accounting to "nobody is stuck": what is still missing, exactly -/
 
-/-- The wake-up discipline of a quiescent state — the part of `C02NoStuckStatement'` that is not proved.
+/-- The wake-up discipline of a quiescent state — the part of `C02NoStuckStatement'` that was still open when this file was written (now proved in `Lemmas/ClientWake.lean`, `Lemmas/ClientParkQ.lean`).
 `np`, `rs`, `aw`: a call future that is not woken is parked where it will be woken (a fresh future is born woken; a
 future waiting for a permit is in the wait queue; a future waiting for its response has an open, empty oneshot whose
 sender is alive).  `gone`: a dispatch that was dropped or has completed leaves no waiter and no queued request behind.
